@@ -222,6 +222,34 @@ Proof.
     cbv beta iota. cbn [wwalk forces]. left. eexists. split; [vm_compute; reflexivity|]. apply cyc_parts_lit. cbn. tauto.
 Qed.
 
+(** non-vacuity: a cycle that closes only inside another parameter's render -- a: ${b:x}, b: ${c},
+    c: {x: ${a}} -- is covered by putting what must be rendered on the way (c) into the set *)
+Example C08_cycle_through_a_rendered_parameter :
+  let root := [ mk_entry (VStr "a") (VStr "${b:x}") false false;
+                mk_entry (VStr "b") (VStr "${c}") false false;
+                mk_entry (VStr "c") (VMap [mk_entry (VStr "x") (VStr "${a}") false false]) false false ] in
+  let ks := ["a"; "b:x"; "c"]%string in
+  (forall p, In p ks ->
+     exists k0 segs v0, split_on ":" p = k0 :: segs /\ m_get (VStr k0) root = Some v0 /\ wwalk root ks segs v0) /\
+  exists F0 e, forall F, F0 <= F -> interp F root (VStr "${a}") st0 = Err e.
+Proof.
+  cbn zeta.
+  assert (Hc : forall p, In p ["a"; "b:x"; "c"]%string ->
+     exists k0 segs v0, split_on ":" p = k0 :: segs /\
+       m_get (VStr k0) [ mk_entry (VStr "a") (VStr "${b:x}") false false; mk_entry (VStr "b") (VStr "${c}") false false;
+                         mk_entry (VStr "c") (VMap [mk_entry (VStr "x") (VStr "${a}") false false]) false false ] = Some v0 /\
+       wwalk [ mk_entry (VStr "a") (VStr "${b:x}") false false; mk_entry (VStr "b") (VStr "${c}") false false;
+               mk_entry (VStr "c") (VMap [mk_entry (VStr "x") (VStr "${a}") false false]) false false ] ["a"; "b:x"; "c"]%string segs v0).
+  { intros p [<-|[<-|[<-|[]]]]; do 3 eexists; (split; [reflexivity|]); (split; [reflexivity|]); cbn [wwalk].
+    - cbn [forces]. eexists. split; [vm_compute; reflexivity|]. apply cyc_parts_lit. cbn. tauto.
+    - cbn [forces]. eexists. split; [vm_compute; reflexivity|]. apply cyc_parts_lit. cbn. tauto.
+    - cbn [forces]. left. eexists. split; [vm_compute; reflexivity|]. apply cyc_parts_lit. cbn. tauto. }
+  split; [exact Hc|].
+  eapply C08_cycles_through_referenced_and_layered_members_yield_no_value; [|exact Hc | exact I|].
+  - cbn. repeat split; repeat constructor; cbn; intuition discriminate.
+  - cbn [forces]. eexists. split; [vm_compute; reflexivity|]. apply cyc_parts_lit. cbn. tauto.
+Qed.
+
 (** Boundary evaluations on the model (kernel computations, instances -- not the general claim):
     a chain of 63 whole-value references renders, a chain of 65 hits the depth limit; direct,
     embedded, list, mapping-value and layer cycles are loop errors; a reference used three times
